@@ -17,6 +17,10 @@ Rendering:
 * a failed request is never removed from `pending` by the code (only `Disconnect`/`Remove`
   delete it); this leak is kept.
 * `failedAttempts` is `map[string]uint16`: the wrap at 65536 is written out.
+* a request cancelled while it waits for its address is dropped by `Connect`
+  (`c.State() == ConnCanceled`) before it dials. (If the cancellation overtakes the check, the
+  code dials and `handleConnected` closes the connection again — same counts except `dials`;
+  that race is not modelled.)
 * only non-permanent requests and a configured `GetNewAddress` (the server's
   configuration; nothing in the service creates a permanent request); `Stop` is not an event.
 -/
@@ -99,17 +103,17 @@ inductive Event where
 def step (c : Cfg) (s : St) : Event → St
   | .dialOk id a =>
     if id ∈ s.live then
-      let s1 : St := { s with live := s.live.erase id, asks := s.asks + 1, dials := s.dials + 1 }
+      let s1 : St := { s with live := s.live.erase id, asks := s.asks + 1 }
       if id ∈ s1.pending then
-        -- handleConnected
-        { s1 with conns := s1.conns.filter (fun x => x.1 != id) ++ [(id, a)], pending := rem id s1.pending,
-                  fails := upd s1.fails a 0, gfails := 0 }
-      else s1   -- "Ignoring connection for canceled connreq": conn closed
+        -- Connect → Dial → handleConnected
+        { s1 with dials := s1.dials + 1, conns := s1.conns.filter (fun x => x.1 != id) ++ [(id, a)],
+                  pending := rem id s1.pending, fails := upd s1.fails a 0, gfails := 0 }
+      else s1   -- Connect: `c.State() == ConnCanceled` → return, nothing is dialled
     else s
   | .dialFail id a =>
     if id ∈ s.live then
-      let s1 : St := { s with live := s.live.erase id, asks := s.asks + 1, dials := s.dials + 1 }
-      if id ∈ s1.pending then failedConn c s1 (some a) else s1
+      let s1 : St := { s with live := s.live.erase id, asks := s.asks + 1 }
+      if id ∈ s1.pending then failedConn c { s1 with dials := s1.dials + 1 } (some a) else s1
     else s
   | .addrFail id =>
     if id ∈ s.live then
